@@ -640,7 +640,8 @@ def check_request(stack, query, kb, csv, rep, part, full_getters_for=None, occ='
                       '%s query=%r keep_blank=%s csv=%s: reference mapping %r, but %s' % (stack, raw, kb, csv, exp, problem[2]))
         return
     got = req.params
-    if not same_mapping(exp, got):
+    ok_before = same_mapping(exp, got)
+    if not ok_before:
         rep.violation({'kind': 'mapping', 'level': stack, 'cls': diff_class(exp, got), 'kb': kb, 'csv': csv}, ctx,
                       '%s query=%r keep_blank=%s csv=%s: reference mapping %r, req.params %r' % (stack, raw, kb, csv, exp, got))
     try:
@@ -679,6 +680,12 @@ def check_request(stack, query, kb, csv, rep, part, full_getters_for=None, occ='
                                   % (stack, raw, kb, csv, g, nm, e1, g1))
     if full_getters_for is not None:
         rep.trans(check_getters(req, exp, full_getters_for, rep, ctx, occ=occ))
+    # the accessors are reads: the request's mapping is the same mapping afterwards
+    after = req.params
+    if ok_before and not same_mapping(exp, after):
+        rep.violation({'kind': 'mapping-changed-by-accessors', 'level': stack, 'cls': diff_class(exp, after), 'kb': kb, 'csv': csv}, ctx,
+                      '%s query=%r keep_blank=%s csv=%s: req.params was %r, after has_param/get_param*/typed getter calls it is %r'
+                      % (stack, raw, kb, csv, exp, after))
     rep.trace()
     return exp
 
